@@ -24,7 +24,15 @@ WS_MODS = [" ", " \\t", "\\n ", " \\t\\n", " \\t\\r\\n", " \\r"]
 COMMENT_RULES = {"line": r"/#[^\n]*/", "block": r"/\/\*[^*]*\*\//", "both": r"/#[^\n]*/ | /\/\*[^*]*\*\//"}
 
 
+# literals that are always *spelled* with an escape sequence in the grammar text (textX decodes it: same literal)
+SPELLED = {"end": "'\\x65nd'", "begin": "'b\\u0065gin'"}
+# literals that need an escape to be written at all (a quote, a backslash)
+ESC_LITS = ["don't", "a\\b"]
+
+
 def esc_str(lit):
+    if lit in SPELLED:
+        return SPELLED[lit]
     return "'" + lit.replace("\\", "\\\\").replace("'", "\\'") + "'"
 
 
@@ -152,7 +160,7 @@ def constructs(g):
 
 @st.composite
 def literals(draw):
-    return ["str", draw(st.sampled_from(KEYWORDS + SYMBOLS + KEYWORDS))]
+    return ["str", draw(st.sampled_from(KEYWORDS + SYMBOLS + KEYWORDS + ESC_LITS))]
 
 
 @st.composite
